@@ -21,13 +21,13 @@ PROP_UNITS = {
     'C05': ['cts'],
     'C06': ['belt'],
     'C07': ['deps', 'lemmas', 'cbc', 'pcbc', 'ige', 'cfb', 'cfb8', 'ofb', 'ctr', 'belt'],
-    'C08': ['lemmas', 'cfb', 'cfb8', 'ofb', 'ctr', 'belt'],
+    'C08': ['deps', 'lemmas', 'cfb', 'cfb8', 'ofb', 'ctr', 'belt'],
     'C09': ['lemmas', 'cbc', 'pcbc', 'ige', 'cfb', 'cfb8', 'ofb', 'ctr', 'belt'],
     'C10': ['ctr', 'belt'],
     'C11': ['ctr', 'belt'],
     'C12': ['deps', 'cbc', 'pcbc', 'ige', 'cfb', 'cfb8', 'ofb', 'ctr', 'belt', 'cts'],
     'C13': ['cts', 'cbc', 'pcbc', 'ige', 'cfb', 'cfb8', 'ofb', 'ctr', 'belt'],
-    'C14': ['lemmas', 'cts', 'ofb', 'cfb', 'ctr', 'belt', 'cbc'],
+    'C14': ['deps', 'lemmas', 'cts', 'ofb', 'cfb', 'ctr', 'belt', 'cbc'],
     'C16': ['ctr', 'cbc', 'pcbc', 'ige', 'cfb', 'cfb8', 'ofb', 'belt', 'cts'],
     'C15': ['lemmas', 'cbc', 'pcbc', 'ige', 'cfb', 'cfb8', 'ofb', 'ctr', 'belt'],
     'C17': ['cbc', 'pcbc', 'ige', 'cfb', 'cfb8', 'ofb', 'ctr', 'belt'],
@@ -82,12 +82,15 @@ LEVEL = {
                'encrypt/decrypt_block(s)(_inout|_b2b) methods of BlockModeEncrypt/Decrypt -- are verified against run(step) as well, so '
                '"any mixture of single and multi-block calls, any width" is a theorem down from the public block API; run_concat / '
                'ks_run_concat give every partition; the repo-side chunking of the cts helpers is verified as code.',
-               'Still assumed: *_blocks_b2b (closure capturing &mut self), the stream-core drivers (cipher::stream::core_api, wrapper) and '
-               'the cipher itself; exercised by the harnesses (bounded).'),
+               'The stream-core drivers of cipher::stream::core_api (default gen_par_ks_blocks, ApplyBlocksCtx / ApplyBlockCtx / WriteBlockCtx, '
+               'default apply_keystream_block(s)(_inout) / write_keystream_block) are extracted and verified against ks_run as well. '
+               'Still assumed: *_blocks_b2b (closure capturing &mut self), gen_tail_blocks / WriteBlocksCtx (iteration over &mut [T]), the '
+               'byte-buffering wrapper, and the cipher itself; exercised by the harnesses (bounded).'),
     'C08': _lv('Byte-splitting follows from run_concat / ks_run_concat / lemma_cfb_buf_concat (proved, any cut incl. empty pieces) over the '
                'code = spec contracts; prefix preservation is lemma_run_prefix.',
-               'The byte-buffering of StreamCipherCoreWrapper and the buffered-CFB data functions are dependency / external_body code: '
-               'checked by stream harnesses with two-piece splits at every offset (bounded).'),
+               'Block-level keystream application (cipher::stream::core_api drivers) is verified dependency text; the byte-buffering of '
+               'StreamCipherCoreWrapper and the buffered-CFB data functions are assumed / external_body: checked by stream harnesses with '
+               'two-piece splits at every offset (bounded).'),
     'C09': _lv('Contracts of every iv_state / inner_iv_init / get_state / from_state are verified (identity on the chaining value; CFB: E in, D '
                'out; BelT: D(le128(s)) out; CTR: current counter block out, from_nonce in); resume lemmas and equal-state lemmas are proved.',
                'Needs D.E = E.D = id as lemma hypotheses. CTR resume keeps the keystream but restarts the position (stated).'),
